@@ -1142,6 +1142,11 @@ func p10RMW(r *Run, rep *core.Report, prop string, mm *core.MapModel) {
 			packedLoads(r, val, loads, map[ssa.Value]bool{}, 0)
 			okv := true
 			why := ""
+			// a helper that rebuilds the word must derive its result from the word it is given on every path: a path that
+			// returns a constant wipes the other slots' bits - and, where the word also holds the lock bit, releases the lock
+			if msg := wordHelpersPreserve(r, val, 0); msg != "" {
+				okv, why = false, msg
+			}
 			for ld, b := range loads {
 				if prm, isP := ld.(*ssa.Parameter); isP {
 					// a helper that writes the word it is given into the bucket it is given: at every call site the
@@ -1238,4 +1243,103 @@ func p14SameBucket(r *Run, rep *core.Report, rule string, mm *core.MapModel) {
 		rep.Check(bad == "", rule, fmt.Sprintf("%s slot index %s stays with one bucket", fn(f), idx.Name()), pos, fmt.Sprintf("all %d slot accesses with this index go to the same bucket value", len(us)), bad)
 	}
 	_ = n
+}
+
+// wordHelpersPreserve walks the value stored into a packed bucket word; for every call of an in-package helper that
+// takes the word (a uint64 argument carrying a load of a packed word, or a word parameter) and returns a uint64, every
+// return of that helper must derive from that parameter.
+func wordHelpersPreserve(r *Run, v ssa.Value, depth int) string {
+	if v == nil || depth > 6 {
+		return ""
+	}
+	switch x := core.StripConv(v).(type) {
+	case *ssa.BinOp:
+		if m := wordHelpersPreserve(r, x.X, depth+1); m != "" {
+			return m
+		}
+		return wordHelpersPreserve(r, x.Y, depth+1)
+	case *ssa.Phi:
+		for _, e := range x.Edges {
+			if m := wordHelpersPreserve(r, e, depth+1); m != "" {
+				return m
+			}
+		}
+	case *ssa.Call:
+		cal := core.Callee(x)
+		if cal == nil || cal.Pkg != r.P.Xsync || cal.Blocks == nil {
+			return ""
+		}
+		if b, ok := x.Type().Underlying().(*types.Basic); !ok || b.Kind() != types.Uint64 {
+			return ""
+		}
+		for ai, a := range x.Call.Args {
+			l := map[ssa.Value]ssa.Value{}
+			packedLoads(r, a, l, map[ssa.Value]bool{}, 0)
+			if len(l) == 0 || ai >= len(cal.Params) {
+				continue
+			}
+			prm := cal.Params[ai]
+			bad := ""
+			core.Instrs(cal, func(in ssa.Instruction) {
+				ret, isRet := in.(*ssa.Return)
+				if !isRet || len(ret.Results) != 1 || bad != "" {
+					return
+				}
+				if !derivesOnAllPaths(ret.Results[0], prm, map[ssa.Value]bool{}, 0) {
+					bad = fmt.Sprintf("%s returns, at %s, a word that does not derive from the word it was given (a constant or unrelated value on some path): storing it wipes the other slots' bits%s", fn(cal), r.P.InstrPos(ret), lockBitNote(r))
+				}
+			})
+			if bad != "" {
+				return bad
+			}
+			if m := wordHelpersPreserve(r, a, depth+1); m != "" {
+				return m
+			}
+		}
+	}
+	return ""
+}
+
+func lockBitNote(r *Run) string {
+	for _, mm := range r.M.Maps {
+		if mm.LockKind == "spin" {
+			return " and, in the map whose bucket lock is a bit of that word, releases the lock in the middle of the critical section"
+		}
+	}
+	return ""
+}
+
+// derivesOnAllPaths: v is computed from src on every path (phi edges all derive; a constant does not).
+func derivesOnAllPaths(v, src ssa.Value, seen map[ssa.Value]bool, depth int) bool {
+	v = core.StripConv(v)
+	if v == src {
+		return true
+	}
+	if depth > 12 {
+		return false
+	}
+	if seen[v] {
+		return true // a cycle through a phi: decided by its other edges
+	}
+	seen[v] = true
+	switch x := v.(type) {
+	case *ssa.BinOp:
+		return derivesOnAllPaths(x.X, src, seen, depth+1) || derivesOnAllPaths(x.Y, src, seen, depth+1)
+	case *ssa.UnOp:
+		return derivesOnAllPaths(x.X, src, seen, depth+1)
+	case *ssa.Phi:
+		for _, e := range x.Edges {
+			if !derivesOnAllPaths(e, src, seen, depth+1) {
+				return false
+			}
+		}
+		return true
+	case *ssa.Call:
+		for _, a := range x.Call.Args {
+			if derivesOnAllPaths(a, src, seen, depth+1) {
+				return true
+			}
+		}
+	}
+	return false
 }
